@@ -203,6 +203,13 @@ def crafted_streams():
             newpay = pay[:8] + struct.pack('<HH', tid, len(content)) + content + rest
             g = f[:2] + struct.pack('<H', len(newpay)) + f[4:24] + newpay
             out.append(('item0-%04x' % tid, reg + g))
+    # a frame whose LAST byte never arrives (end of stream one byte short), the request being one that would still parse without it
+    # (one-byte elements, fragmented so that fewer elements than the total are a legal fragment)
+    for wr in (('writef', ('sym', 'S', 0), 194, 3, 0, [('i', 17), ('i', 34), ('i', 51)]), ('writef', ('sym', 'T', 1), 194, 3, 0, [('i', 1), ('i', 2), ('i', 3)]),
+               ('write', ('sym', 'B', None), 194, 1, [('i', 99)]), ('set', ('num', 0x99, 1, 2, None), [9, 0, 8, 0, 7, 0])):
+        for wrap in (False, True):
+            f = E.build_unconnected(L.py_req(wr), ctx=b'1short00', wrap=wrap)
+            out.append(('one-byte-short', reg + f[:-1]))
     # bundles nested in bundles, every level with an offset table that names the inner bundle several times, alternating with empty
     # (end-before-begin) regions: each level adds ~20 bytes; the work must not multiply per level
     inner = bytes([0x4C, 0x02, 0x20, 0x02, 0x24, 0x01, 0x01, 0x00])
